@@ -4,6 +4,7 @@ From Coq Require Import ZArith String.
 From OL Require Import theories.Store theories.Abci theories.Restart theories.Nondet
   proofs.StoreProofs proofs.RestartProofs proofs.NondetProofs gen.Facts_Nondet
   theories.Globals proofs.GlobalsProofs gen.Facts_Globals.
+From OL Require theories.Replay.
 Local Open Scope Z_scope.
 
 (* (1) Go map iteration is an arbitrary permutation chosen per loop.  For each loop idiom that
@@ -143,3 +144,21 @@ Theorem C01_fact_node_local_inputs :
   unknown_globals written_globals = [] /\ unaudited_reads local_reads = [] /\ state_then_lookup_error = [].
 Proof. vm_compute. repeat split; reflexivity. Qed.
 Print Assumptions C01_fact_node_local_inputs.
+
+(* ---------- the replay record is node-local (known finding C01.replay_record_is_node_local) ----------
+   Whether a delivered transaction was executed before is asked of Tendermint's transaction index
+   (theories/Replay.v: txDeliverer looks the hash up first and answers from the index without executing).
+   The index is node configuration ("kv" or "null") and is not part of the state the blocks determine: two
+   nodes with the same application state, fed the same block, compute different states when the block contains
+   bytes that an earlier block already contained.  Closed witness; exhibited on the real application by the
+   replica "tx-index-off" on histories with re-included transactions. *)
+Theorem C01_replay_record_node_local_refuted : exists (b : Replay.bytes),
+  let decode := fun x : Replay.bytes => Some x in
+  let adm := fun (_ : Replay.bytes) (_ : Z) => true in
+  let app := fun (_ : Replay.bytes) (s : Z) => (s + 1)%Z in
+  let kv_node := {| Replay.idx := [b]; Replay.st := 1%Z; Replay.pending := [] |} in
+  let null_node := {| Replay.idx := []; Replay.st := 1%Z; Replay.pending := [] |} in
+  Replay.st Z kv_node = Replay.st Z null_node /\
+  Replay.st Z (snd (Replay.deliver Replay.bytes decode Z adm app kv_node b)) <>
+  Replay.st Z (snd (Replay.deliver Replay.bytes decode Z adm app null_node b)).
+Proof. exists [1%Z]. cbn. split; [reflexivity|discriminate]. Qed.
